@@ -338,44 +338,86 @@ class _Val(tuple):
         return "%d*one.value + %d*two.value" % (a, b)
 
 
+def _val(start, end, tag):
+    return {"__type": "Value", "start": start, "end": end, "value": ("f", tag)}
+
+
+def _vtxt(v):
+    if isinstance(v, dict):
+        return "{%s}" % ", ".join("%s: %s" % (k, _vtxt(x)) for k, x in v.items() if not k.startswith("__"))
+    if isinstance(v, tuple) and len(v) == 2 and v[0] == "some":
+        return "Some(%s)" % _vtxt(v[1])
+    if isinstance(v, tuple) and len(v) == 2 and v[0] == "f":
+        return repr(v[1])
+    return repr(v)
+
+
 def ob_fill(ctx, res):
-    """C15-G1"""
+    """C15-G1: FillValues::next is comparison-only over (last_end, next.start, next.end, expected_end): it is evaluated on every order type of those
+    four positions x every shape of (held value, polled item, expected end) and compared with the filling stated by the property"""
     fn = ctx.ast.fn(FI, "next", impl="FillValues")
-    t = up(fn.body)
-    lits = [n for n in walk_no_nested_fn(fn.body) if n.k == "struct" and n["path"].endswith("Value")]
-    if len(lits) != 2:
-        res.fail("fill/sites", fn, "expected two filler literals (gap before a value, trailing gap)")
+    sd = ctx.ast.struct(FI, "FillValues")
+    fields = [f["name"] for f in sd["fields"]]
+    if sorted(fields) != ["expected_end", "iter", "last_end", "last_val"]:
+        res.fail("fill/state", sd, "FillValues is expected to hold (iter, last_val, expected_end, last_end); has %s" % fields)
         return
-    for l in lits:
-        f = {x["name"]: up(strip_cast(x["e"])) for x in l["fields"]}
-        if f.get("value") not in ("0.0", "0"):
-            res.fail("fill/value", l, "a filler must have value 0.0; has %s" % f.get("value"))
-            return
-    g = [n for n in walk_no_nested_fn(fn.body) if n.k == "if" and re.fullmatch(r"(\w+)\.start > self\.last_end", up(strip(n["cond"])))]
-    if len(g) != 1:
-        res.fail("fill/gap-test", fn, "a filler is inserted only when next.start > last_end")
-        return
-    nxt = re.fullmatch(r"(\w+)\.start > self\.last_end", up(strip(g[0]["cond"]))).group(1)
-    th = up(g[0]["then"])
-    m = re.search(r"let (\w+) = self\.last_end; self\.last_end = %s\.start; self\.last_val\.replace\(%s\); Some\(Ok\(Value\{start: \1, ?end: self\.last_end, ?value: 0\.0\}\)\)" % (nxt, nxt), th)
-    if not m:
-        res.fail("fill/gap-arm", g[0], "gap arm must emit {start: last_end, end: next.start, value: 0.0} and hold `next` back unchanged; got %s" % th[:200])
-        return
-    el = up(g[0]["else"])
-    if not re.fullmatch(r"\{self\.last_end = %s\.end; Some\(Ok\(%s\)\)\}" % (nxt, nxt), el):
-        res.fail("fill/pass-arm", g[0], "a value that starts at or before last_end must be passed through unchanged; got %s" % el[:120])
-        return
-    first = fn.body["stmts"][0]
-    if not re.fullmatch(r"if let Some\((\w+)\) = self\.last_val\.take\(\) \{self\.last_end = \1\.end; return Some\(Ok\(\1\)\);?\}", up(first)):
-        res.fail("fill/held", first, "the held-back value must be returned unchanged right after its filler")
-        return
-    tr = [n for n in walk_no_nested_fn(fn.body) if n.k == "if" and re.fullmatch(r"self\.last_end < (\w+)", up(strip(n["cond"])))]
-    if len(tr) != 1 or not re.search(r"Value\{start: (\w+), ?end: (\w+), ?value: 0\.0\}", up(tr[0]["then"])) or "None" not in up(tr[0]["else"]):
-        res.fail("fill/trailing", fn, "the trailing filler must reach expected_end exactly when last_end < expected_end")
-        return
-    if "Some(_) => next" not in t:
-        res.fail("fill/errors", fn, "errors of the input stream must be passed through")
-        return
+    rows = 0
+    ERR = ("some", ("err", "E"))
+    for ranks in weak_orders(4):
+        le, ns, ne, ee = ranks
+        if not ns < ne:
+            continue   # values are non-empty intervals
+        for held in (None, ("some", _val(ns, ne, 5.0))):
+            for polled in (None, ERR, ("some", ("some", _val(ns, ne, 7.0)))):
+                for exp in (None, ("some", ee)):
+                    polls = []
+
+                    def method(m, recv, args, polled=polled, polls=polls):
+                        if m == "next" and recv == "ITER" and not args:
+                            polls.append(1)
+                            return polled if len(polls) == 1 else None
+                        raise NotPure("method " + m)
+                    me = {"__ref": True, "iter": "ITER", "last_val": held, "expected_end": exp, "last_end": le}
+                    it = Interp(ctx.ast, FI, extern={"None": None, "method": method})
+                    try:
+                        got = it.call(fn, [me])
+                    except NotPure as e:
+                        res.undecided("fill/not-evaluable", fn, "FillValues::next left the comparison-only fragment the rule evaluates (%s): gap filling is not decided" % e)
+                        return
+                    rows += 1
+                    # required by the property: gaps between values (and up to the expected end) are filled with 0.0, values pass unchanged
+                    if held is not None:
+                        want, wstate, wpolls = ("some", ("some", held[1])), (None, held[1]["end"]), 0
+                    elif polled is ERR:
+                        want, wstate, wpolls = ERR, (None, le), 1
+                    elif polled is not None:
+                        v = polled[1][1]
+                        if ns > le:
+                            want, wstate, wpolls = ("some", ("some", _val(le, ns, 0.0))), (("some", v), None), 1
+                        else:
+                            want, wstate, wpolls = polled, (None, ne), 1
+                    elif exp is not None and le < ee:
+                        want, wstate, wpolls = ("some", ("some", _val(le, ee, 0.0))), (None, ee), 1
+                    else:
+                        want, wstate, wpolls = None, (None, None), 1
+                    case = "last_end,next.start,next.end,expected_end ranked %s; held=%s polled=%s expected_end=%s" % (ranks, _vtxt(held), _vtxt(polled), _vtxt(exp))
+                    if got != want:
+                        res.fail("fill/result", fn, "FillValues::next returns %s, required %s [%s]" % (_vtxt(got), _vtxt(want), case))
+                        return
+                    if len(polls) != wpolls:
+                        res.fail("fill/polls", fn, "the input is polled %d times in one call, required %d [%s]" % (len(polls), wpolls, case))
+                        return
+                    if me["last_val"] != wstate[0]:
+                        res.fail("fill/held", fn, "after the call the held-back value is %s, required %s [%s]" % (_vtxt(me["last_val"]), _vtxt(wstate[0]), case))
+                        return
+                    # after a gap filler the held value is returned next and sets last_end itself; otherwise last_end must be the end of what was returned
+                    if wstate[1] is not None and me["last_end"] != wstate[1]:
+                        res.fail("fill/last-end", fn, "after the call last_end has rank %s, required %s [%s]" % (me["last_end"], wstate[1], case))
+                        return
+                    if want is not None and isinstance(want[1], tuple) and want[1][0] == "some" and wstate[0] is not None and me["last_end"] < ns and False:
+                        pass
+    res.ok(fn, "FillValues::next evaluated on %d cases (every order type of last_end/next.start/next.end/expected_end x held x polled x expected end): "
+               "held value returned unchanged; gap -> {last_end, next.start, 0.0} and the value is held back; no gap -> value unchanged; trailing filler up to expected_end; errors pass through" % rows)
     # constructors: where filling starts and ends
     for cname, want in (("fill", {"last_val": "None", "expected_end": "None", "last_end": "0"}),
                         ("fill_start_to_end", {"last_val": "None", "expected_end": "Some(p2)", "last_end": "p1"})):
@@ -398,7 +440,6 @@ def ob_fill(ctx, res):
             res.fail("fill/ctor/%s" % cname, sl[0], "%s must start with %s; differs in %s" % (cname, want, bad))
             return
     res.ok(fn, "fill() starts at 0 with no expected end; fill_start_to_end(iter,start,end) starts at `start` and pads to `end`; nothing held back initially")
-    res.ok(fn, "fill: held value returned unchanged; gap -> {last_end, next.start, 0.0} then the value; no gap -> value unchanged; trailing filler to expected_end; errors pass through")
 
 
 def _direct_stmt_of(fn, n):
@@ -418,88 +459,163 @@ def _inside_node(n, root):
 
 
 def ob_window(ctx, res):
-    """C15-W1: structural clauses of the 50,000-base window accumulator (ValueIter::next); its arithmetic is NOT decided"""
+    """C15-W1: clauses of the 50,000-base window accumulator (ValueIter::next).  Index expressions and hold-back conditions are decided as functions of
+    (window start, value start, value end, window size) by R-EQUIV; the re-encoding loop's arithmetic is NOT decided"""
+    from ..rules import equiv as EQ
+    from ..astq import upn, walk_with_callees, private_callees
     fn = ctx.ast.fn(ME, "next", impl="ValueIter")
-    acc = [n for n in walk_no_nested_fn(fn.body) if n.k == "for" and strip(n["iter"]).k == "index" and up(strip(strip(n["iter"])["base"])) == "data"
-           and strip(strip(n["iter"])["index"]).k == "range"]
+    acc = [n for n in walk_no_nested_fn(fn.body) if n.k == "for" and strip(n["iter"]).k == "index" and strip(strip(n["iter"])["index"]).k == "range"]
     if len(acc) != 1:
-        res.fail("window/accumulate", fn, "expected one `for i in &mut data[a..b] { *i += value }` accumulation loop")
+        res.undecided("window/accumulate", fn, "no single `for i in &mut data[a..b]` accumulation loop: the window accumulator's shape is not recognised, its clauses are not decided")
         return
     lp = acc[0]
     rng = strip(strip(lp["iter"])["index"])
-    a, b = up(strip(rng["from"])), up(strip(rng["to"]))
-    if not re.fullmatch(r"\{\*(\w+) \+= (\w+) as f64;?\}", up(lp["body"])):
-        res.fail("window/accumulate-form", lp, "each base of the window must receive `+= value`")
+    if rng.get("from") is None or rng.get("to") is None:
+        res.undecided("window/accumulate", lp, "accumulation range is open-ended")
         return
-    # 1. must-follow: the window's used length is extended to b before the iteration can be left
+    body = strip(lp["body"])
+    st_ = body["stmts"] if body.k == "block" else []
+    e0 = strip(st_[0]["e"]) if len(st_) == 1 and st_[0].k == "expr_stmt" else None
+    if e0 is None or e0.k != "binary" or e0["op"] != "+=" or not re.fullmatch(r"\*?\w+", up(strip(e0["l"]))) or not re.fullmatch(r"(\w+\.value|\w+)( as f64)?", upn(fn, e0["r"])):
+        res.fail("window/accumulate-form", lp, "each base of the window must receive `+= value`; loop body is `%s`" % up(body)[:80])
+        return
+    if not re.search(r"as f64$|^f64::from\(", upn(fn, e0["r"])):
+        res.fail("window/precision", lp, "per-base sums must be accumulated in f64 (`+= value as f64`) and rounded to f32 once on output: f32 partial sums lose small contributions "
+                                         "and depend on the order of the inputs; accumulated term is `%s`" % up(e0["r"]))
+        return
+    # names by role
+    cs = [n for n in walk_no_nested_fn(fn.body) if n.k == "let" and n.get("init") is not None and up(strip(n["init"])) == "self.next_start" and n["pat"].k == "p_ident"]
+    if len(cs) != 1:
+        res.undecided("window/start", fn, "the window start is expected to be read once from self.next_start into a local")
+        return
+    csn = cs[0]["pat"]["name"]
+    roles = {"cs": re.escape(csn), "vs": r"\w+\.start", "ve": r"\w+\.end", "DS": r"DATA_SIZE"}
+    pre = lambda e: e["DS"] >= 1 and e["vs"] < e["ve"] and e["ve"] > e["cs"]
+    dom = range(0, 5)
+    # 2. index computation (from the property: each value is added to the bases it covers, cut to the window)
+    r1 = EQ.require(res, "window/indices", lp, fn, rng["from"], roles, lambda e: max(e["cs"], e["vs"]) - e["cs"], "first window slot of a value must be max(window start, v.start) - window start", domain=dom, pre=pre)
+    r2 = EQ.require(res, "window/indices", lp, fn, rng["to"], roles, lambda e: min(e["DS"], e["ve"] - e["cs"]), "end slot of a value must be min(window size, v.end - window start)", domain=dom, pre=pre)
+    if r1 is False or r2 is False:
+        return
+    if r1 and r2:
+        res.ok(lp, "window indices: [max(window start, v.start), min(window end, v.end)) relative to the window start (R-EQUIV over %s)" % sorted(roles))
+    # 1. must-follow: the window's used length is extended to the end slot before the iteration can be left
     blk = lp.parent
     while blk is not None and blk.k != "block":
         blk = blk.parent
     st = blk["stmts"]
     i0 = [i for i, s_ in enumerate(st) if any(x is lp for x in walk_no_nested_fn(s_))][0]
     ext = None
+    xname = None
     for j in range(i0 + 1, len(st)):
-        t = up(st[j])
-        if re.fullmatch(r"(\w+) = \1\.max\(%s\);" % re.escape(b), t) or re.fullmatch(r"(\w+) = (std::cmp::)?max\(\1,%s\);" % re.escape(b), t):
-            ext = j
-            break
+        e = strip(st[j]["e"]) if st[j].k == "expr_stmt" else None
+        if e is not None and e.k == "assign" and re.fullmatch(r"\w+", up(strip(e["l"]))):
+            xn = up(strip(e["l"]))
+            rr = dict(roles)
+            rr["x"] = re.escape(xn)
+            q = EQ.equiv(fn, e["r"], rr, lambda v: max(v["x"], min(v["DS"], v["ve"] - v["cs"])), domain=range(0, 4), pre=pre)
+            if q[0] == "equal":
+                ext, xname = j, xn
+                break
         if any(x.k in ("break", "continue", "return") for x in walk_no_nested_fn(st[j])):
             res.fail("window/extent-after-exit", st[j],
-                     "after bases [%s, %s) were added to the window, the iteration can be left (`%s`) before the window's used length is extended to %s: "
-                     "everything a value that reaches the window end contributed is cut off when the window is re-encoded" % (a, b, up(st[j])[:50], b))
+                     "after a value's bases were added to the window, the iteration can be left (`%s`) before the window's used length is extended to the value's end slot: "
+                     "everything a value that reaches the window end contributed is cut off when the window is re-encoded" % up(st[j])[:50])
             return
     if ext is None:
-        res.fail("window/extent", blk, "the window's used length is never extended to `%s` after accumulating" % b)
+        res.fail("window/extent", blk, "the window's used length is never extended to the value's end slot (max(len, end slot)) after accumulating")
         return
-    res.ok(st[ext], "accumulate data[%s..%s] then extend the used length to %s before any exit of the iteration" % (a, b, b))
-    # 2. index computation
-    la = binding_before(fn, a, lp)
-    lb = binding_before(fn, b, lp)
-    ta = up(strip(la[1]["init"])) if la is not None and la[0] == "let" else ""
-    tb = up(strip(lb[1]["init"])) if lb is not None and lb[0] == "let" else ""
-    if not re.fullmatch(r"\(?current_start\.max\((\w+)\.start\) - current_start\)? as usize", ta) or \
-            not re.fullmatch(r"DATA_SIZE\.min\(\(?(\w+)\.end - current_start\)? as usize\)", tb):
-        res.fail("window/indices", lp, "window indices must be max(current_start, v.start) - current_start and min(DATA_SIZE, v.end - current_start); got `%s` / `%s`" % (ta, tb))
-        return
-    res.ok(lp, "window indices: [max(window start, v.start), min(window end, v.end)) relative to the window start")
+    res.ok(st[ext], "accumulate, then extend the used length `%s` to the end slot before any exit of the iteration" % xname)
     # 3. hold-back sites
-    holds = [n for n in walk_no_nested_fn(fn.body) if n.k == "if" and re.search(r"\*(\w+) = Some\((\w+)\); break 'section;?\}$", up(n["then"]))]
-    conds = sorted(up(strip(h["cond"])) for h in holds)
-    if len(holds) != 2 or not any(re.fullmatch(r"%s >= DATA_SIZE" % re.escape(a), c) for c in conds) or \
-            not any(re.fullmatch(r"\(?(\w+)\.end - current_start\)? as usize >= DATA_SIZE", c) for c in conds):
-        res.fail("window/hold-back", fn, "a value beyond the window (start index >= DATA_SIZE) or reaching its end (v.end - window start >= DATA_SIZE) must be held back for the next window; conditions: %s" % conds)
-        return
-    res.ok(holds[0], "values starting beyond or reaching the end of the window are held back (`*last = Some(v); break`) and re-examined in the next window")
+    holds = [n for n in walk_no_nested_fn(fn.body) if n.k == "if" and any(x.k == "break" for x in walk_no_nested_fn(n["then"]))
+             and any(x.k == "assign" and up(strip(x["r"])).startswith("Some(") for x in walk_no_nested_fn(n["then"])) and _inside_node(n, blk)]
+    kinds = {}
+    for h in holds:
+        for nm, ref in (("start-beyond", lambda e: max(e["cs"], e["vs"]) - e["cs"] >= e["DS"]), ("reaches-end", lambda e: e["ve"] - e["cs"] >= e["DS"])):
+            q = EQ.equiv(fn, h["cond"], roles, ref, domain=dom, pre=pre)
+            if q[0] == "equal":
+                kinds.setdefault(nm, h)
+            elif q[0] == "unknown":
+                kinds.setdefault("?", (h, q[1]))
+    if "start-beyond" not in kinds or "reaches-end" not in kinds:
+        if "?" in kinds:
+            res.undecided("window/hold-back", kinds["?"][0], "hold-back condition not decided (%s)" % kinds["?"][1])
+        else:
+            res.fail("window/hold-back", fn, "a value beyond the window (start slot >= window size) or reaching its end (v.end - window start >= window size) must be held back "
+                                             "for the next window; conditions found: %s" % sorted(up(strip(h["cond"])) for h in holds))
+            return
+    else:
+        res.ok(holds[0], "values starting beyond or reaching the end of the window are held back (`*last = Some(v); break`) and re-examined in the next window")
     # 4. window advance
-    t = up(fn.body)
-    m_adv = re.search(r"let current_start = self\.next_start; ?self\.next_start = current_start(\.saturating_add\(| \+ )\(?DATA_SIZE as u32\)?;", t)
-    if not m_adv:
-        res.fail("window/advance", fn, "windows must tile the chromosome: next_start advances by exactly DATA_SIZE per window")
-        return
-    if "saturating_add" not in m_adv.group(1):
-        res.fail("window/advance-overflow", fn,
-                 "`current_start + DATA_SIZE as u32` is a plain u32 addition: after a window within 50,000 bases of u32::MAX it overflows (panic with overflow checks); "
-                 "no value can start at or after such a window, so the start must saturate")
-        return
+    adv = [n for n in walk_no_nested_fn(fn.body) if n.k == "assign" and up(strip(n["l"])) == "self.next_start"]
+    if len(adv) != 1 or not precedes_in_block(cs[0], adv[0]):
+        res.undecided("window/advance", fn, "expected `let start = self.next_start;` followed by one assignment of self.next_start")
+    else:
+        q = EQ.equiv(fn, adv[0]["r"], {"cs": re.escape(csn) + r"|self\.next_start", "DS": "DATA_SIZE"}, lambda e: e["cs"] + e["DS"], domain=range(0, 6))
+        if q[0] == "differs":
+            res.fail("window/advance", adv[0], "windows must tile the chromosome: next_start advances by exactly the window size per window; `%s` gives %s for %s" % (up(adv[0]["r"]), q[2], q[1]))
+            return
+        if q[0] == "unknown":
+            res.undecided("window/advance", adv[0], "window advance not decided (%s)" % q[1])
+        else:
+            plain = [x for x in walk_no_nested_fn(adv[0]["r"]) if x.k == "binary" and x["op"] == "+"]
+            if plain:
+                res.fail("window/advance-overflow", adv[0],
+                         "`%s` is a plain u32 addition: after a window within 50,000 bases of u32::MAX it overflows (panic with overflow checks); "
+                         "no value can start at or after such a window, so the start must saturate" % up(adv[0]["r"]))
+                return
+            res.ok(adv[0], "windows tile the coordinate space: start = next_start; next_start = start (+sat) window size")
     # the scanned length belongs to one window: declared inside the window loop (a stale length re-scans zero slots of a later, empty
     # window and computes their positions, which overflows near u32::MAX)
     wl = [n for n in walk_no_nested_fn(fn.body) if n.k == "loop" and n.parent is not None and _direct_stmt_of(fn, n)]
-    mdl = [n for n in walk_no_nested_fn(fn.body) if n.k == "let" and up(n["pat"]).replace("mut ", "") == "max_data_len"]
-    if len(mdl) != 1 or not wl or not _inside_node(mdl[0], wl[0]["body"]):
-        res.fail("window/scan-length", fn, "max_data_len must be reset for every window (declared inside the window loop)")
+    mdl = [n for n in walk_no_nested_fn(fn.body) if n.k == "let" and n["pat"].k == "p_ident" and n["pat"]["name"] == xname]
+    if len(mdl) != 1 or not wl:
+        res.undecided("window/scan-length", fn, "the used-length local `%s` / the window loop were not found in the expected shape" % xname)
+    elif not _inside_node(mdl[0], wl[0]["body"]):
+        res.fail("window/scan-length", mdl[0], "`%s` must be reset for every window (declared inside the window loop)" % xname)
         return
-    c = ctx.ast.const(ME, "DATA_SIZE")
-    res.ok(fn, "windows tile the coordinate space: start = next_start; next_start += DATA_SIZE")
-    # 5. zero runs are not emitted
-    pushes = [n for n in walk_no_nested_fn(fn.body) if n.k == "mcall" and n["method"] == "push" and up(strip(n["recv"])) == "next_sections"]
-    okp = 0
-    for p in pushes:
-        iff = p.parent
-        while iff is not None and iff.k != "if":
-            iff = iff.parent
-        if iff is not None and re.fullmatch(r"(\w+)\.2 != 0\.0", up(strip(iff["cond"]))):
-            okp += 1
-    if len(pushes) != 2 or okp != 2:
-        res.fail("window/zero-runs", fn, "runs are emitted at two places (value change, end of window), each only when the run's sum is non-zero")
+    # 5. zero runs are not emitted: every re-encoded run is pushed under `sum != 0.0`
+    helpers = private_callees(ctx.ast, fn, 1)
+    sites, bad = 0, []
+    for g in [fn] + helpers:
+        for p_ in walk_no_nested_fn(g.body):
+            if not (p_.k == "mcall" and p_["method"] == "push" and len(p_["args"]) == 1 and strip(p_["args"][0]).k == "struct" and strip(p_["args"][0])["path"].endswith("Value")):
+                continue
+            if g is fn and _inside_closure(p_):
+                continue
+            lit = strip(p_["args"][0])
+            val = [f for f in lit["fields"] if f["name"] == "value"]
+            vt = upn(g, strip_cast(val[0]["e"])) if val and val[0].get("e") is not None else "value"
+            iff = p_.parent
+            guarded = False
+            while iff is not None and isinstance(iff, Node):
+                if iff.k == "if" and upn(g, iff["cond"]) in ("0.0 != %s" % vt, "%s != 0.0" % vt) and _inside_node(p_, iff["then"]):
+                    guarded = True
+                    break
+                iff = iff.parent
+            if not guarded:
+                bad.append(p_)
+            if g is fn:
+                sites += 1
+            else:
+                sites += len([c for c in walk_no_nested_fn(fn.body) if (c.k == "call" and up(c["func"]).split("::")[-1] == g.name) or (c.k == "mcall" and c["method"] == g.name)])
+    if bad:
+        res.fail("window/zero-runs", bad[0], "a re-encoded run is emitted without the `sum != 0.0` test: zero-sum stretches of the window would be written as values")
         return
-    res.ok(pushes[0], "runs are re-encoded at value changes and at the end of the window, zero-sum runs are dropped")
+    if sites < 2:
+        res.fail("window/zero-runs", fn, "runs must be emitted at two places (value change, end of window); found %d" % sites)
+        return
+    res.ok(fn, "runs are re-encoded at value changes and at the end of the window (%d sites), zero-sum runs are dropped" % sites)
+
+
+def _inside_closure(n):
+    x = n.parent
+    while x is not None and isinstance(x, Node):
+        if x.k == "closure":
+            return True
+        x = x.parent
+    return False
+
+
+def precedes_in_block(a, b):
+    return a.order < b.order
